@@ -322,6 +322,44 @@ ENGINES.append({"name": "crash", "path": "harness/src/crash_engine.rs (+ rawdb d
 ENGINES.append({"name": "sched", "path": "harness/src/sched_engine.rs + lean/Driver/LocksProto.lean", "serves_properties": ["C11", "C09", "C10"],
      "kind_free_text": "trace mode: 48 operation × state scenarios of rawdb and vecdb run alone under the guarded lock shim, acquisition traces checked by the Lean driver against the lock order; directed schedules (C09/C10): threads stopped at lock requests / pause points while another thread runs a script"})
 
+def openlock_features(case):
+    kinds = set()
+    trace = []
+    refs = 0
+    cur = 0
+    for op, obs in zip(case["ops"][1:], case["impl"][1:]):
+        w = op.split()
+        body = split_obs(obs)[0]
+        res = body.split(" | ")[0]
+        trace.append(w[0] + ":" + (w[1] if w[0] in ("probe", "ref") else "") + ":" + res.split(":")[0])
+        if w[0] in ("open", "probe"):
+            m = int(w[-1])
+            how = w[1] if w[0] == "probe" else "thread"
+            if refs > 0:
+                kinds.add(f"refused-{how}-" + ("above" if m > cur else "below" if m > 0 else "plain"))
+            elif res.startswith("opened"):
+                kinds.add("open-free" if res.endswith(":0") else "reopen-after-flush")
+                if w[0] == "open":
+                    refs = 1
+        elif w[0] == "ref" and res == "ok":
+            kinds.add("ref-" + w[1])
+            refs += 1
+        elif w[0] == "drop" and res == "ok":
+            refs -= 1
+            if refs == 0:
+                kinds.add("last-drop")
+        elif w[0] == "bg" and res == "ok":
+            kinds.add("bg-task")
+        try:
+            cur = int(body.split(" | D ")[1].split()[0])
+        except Exception:
+            pass
+    return trace, (kinds if len(kinds) >= 3 else set())
+
+
+ENGINES.append({"name": "openlock", "path": "harness/src/openlock_engine.rs + lean/Driver/OpenLockProto.lean", "serves_properties": ["C18"],
+     "kind_free_text": "histories of opens on one directory — kept, or dropped at once; from a fresh thread or from a child process re-executing the harness; Database::open and open_with_min_len with lengths absent, below, equal to and above the current file size — interleaved with clones, readers, region-derived database references, background tasks, drops in any order and flushed writes of the holder; model-free oracle: an attempt made while any reference is alive fails with Error::TryLock and leaves every file of the directory byte-identical, an attempt with none alive succeeds and reads the last flushed value; outcome and data-file length compared with the Lean model after every request"})
+
 NOT_CLAIMED = {}
 
 PROPS = {
@@ -451,6 +489,18 @@ PROPS = {
         level_text="Lean 4 theorems over the transliterated read paths: a one-source lazy vector's range read is exactly the formula on [from, min(to,len)) (C15_from1_range); point reads of all arities are the formula and yield nothing beyond the governing length (C15_from_one, C15_from_oob, C15_from_range_oob); the delta vector's point read is source[h] - source[start-1] without panic whenever the window starts at or before h, nothing out of range (C15_delta_one, C15_delta_oob); the sparse aggregation's point read is the formula, nothing out of range (C15_agg_one, C15_agg_oob, C15_agg_range_oob). The two places where the code violates the property are kept as model counterexamples and replayed witnesses (F7, F8). The window arithmetic of the delta range path and the slot table of the aggregation range path are validated by the correspondence (six range APIs = formula = model) on clean mappings; their Lean range theorems are not done yet.",
         level_note="Trusted: Lean kernel + standard axioms; hand-written model; harness. F22 (collect_range with a huge upper bound panicked) found here, repaired by a fix: commit.",
         technique="Lean 4 proof over transliterated lazy read paths + differential run of all read APIs against the defining formula and the model",
+    ),
+    "C18": dict(
+        lean="AnyDB.Props.C18",
+        runs=[
+            Run("openlock", "histories", [], (64, 40), (1200, 80), proj_all, ["C18", "panic"], openlock_features),
+        ],
+        rule="one directory per case; requests drawn with weights that depend on whether somebody holds the directory: open (kept) / probe from a thread / probe from a child process, each with min_len absent (30%), below (20%), equal to (6%) or above (44%) the current data-file length; ref clone|reader|regiondb; bg task; drop of the k-th live reference; flushed write of a fresh value; non-trivial = at least three of: refused-{thread,child}-{plain,below,above}, reopen-after-flush, open-free, ref-{clone,reader,regiondb}, bg-task; distinct = distinct (request, outcome) traces",
+        assumptions=["advisory file locks behave as documented for flock(2)/std::fs::File::try_lock: exclusive per open file description, released when it is closed",
+                     "both opener kinds are cooperative users of rawdb (a process that ignores the lock is outside the property)"],
+        level_text="Lean 4 theorems over the effect sequence of Database::open_with_min_len and Regions::open AS EXTRACTED from the source (C18_effects pins the extracted order: create-without-truncate, try_lock, only then set_len/sync), interpreted over two files with one exclusive lock each: with the data file locked an attempt with ANY min_len returns the lock error and leaves lengths, contents and locks of both files exactly as they were (C18_refused_pure, C18_refused_regions); with none locked it succeeds, locks both, never shrinks and grows to min_len at most (C18_opens_when_free); and for EVERY history of kept opens, probes, added references, drops and flushed writes from an empty directory: locks are held exactly while a reference is alive (run_inv), every attempt made while one is alive is refused and is a no-op on the whole directory state (C18_history_refused), a kept open succeeds only from zero references (C18_at_most_one), and once all are gone an open succeeds and sees exactly the last flushed content (C18_history_reopen). Tied to the code by the extractor (order of effects) and by the open-lock engine: real opens from threads and child processes against live holders kept alive through clones, readers, region-derived handles and background tasks, every file hashed before/after each refused attempt, outcome and file length equal to the model's after every request.",
+        level_note="Trusted: Lean kernel + standard axioms; the kernel's advisory-lock semantics (assumed, exercised on the real file system by the engine); extractor; hand-written model. The reference COUNT of the model abstracts Arc strong counts; the engine checks that each reference kind really keeps the lock (a refused probe after dropping all but that reference).",
+        technique="Lean 4 proof (invariant over open/drop histories on an effect model built from the extracted call order) + differential run of real opens from threads and child processes",
     ),
     "C08": dict(
         lean="AnyDB.Props.C08",
